@@ -31,8 +31,7 @@ def run_cases(report, group, progs, cases, modules=None, model=True, nbins=8):
     bins, log, wall = tieb.build(group, mods, nbins=nbins)
     report.cov["harness_build_s"] = round(report.cov.get("harness_build_s", 0) + wall, 1)
     if bins is None:
-        report.violation({"kind": "obligation-broken", "no_longer_checks": [f"generated programs of group {group} do not compile against the repository"],
-                          "log": log[-3000:]}, no_input=True)
+        tieb.report_build_failure(report, group, mods, log)
         return None
     lines, pids = [], []
     for pid, p in progs.items():
